@@ -54,7 +54,7 @@ func (w *world) setupAlphabet(sc *chainx.Scratch, old *neotest.Contract, cs case
 	w.mustDeploy(c.Compile("nns"), []any{[]any{[]any{"neofs", "ops@nspcc.io"}}})
 	a.proxy = w.mustDeploy(c.Compile("proxy"), nil)
 	if cs.nnsProxy {
-		c.RegisterNNS("proxy", a.proxy)
+		w.registerNNS("proxy", a.proxy)
 	}
 	a.nm = w.mustDeploy(c.CompileOld(sc, "netmap", common.Version), []any{false, util.Uint160{}, util.Uint160{},
 		[]any{c.Members[0].Account().PublicKey().Bytes()}, []any{}})
